@@ -18,6 +18,11 @@ SHA1_A = '86f7e437faa5a7fce15d1ddcb9eaeaea377667b8'
 def cases():
     """(name, files, manifests{relpath: lines}, subdirs to update)"""
     yield ('duplicate-ignore', {'foo/a': b'x', 'b': b'a'}, {'Manifest': ['IGNORE foo', 'IGNORE foo', 'DATA b 1 SHA1 ' + SHA1_A]}, [''])
+    yield ('file-entry-before-duplicate-ignore', {'foo/a': b'x', 'b': b'a'},
+           {'Manifest': ['DATA b 1 SHA1 ' + SHA1_A, 'DIST d 1 SHA1 00', 'IGNORE foo', 'IGNORE foo']}, [''])
+    yield ('duplicate-ignore-parent-and-child', {'sub/y/a': b'x', 'sub/g': b'a'},
+           {'Manifest': ['IGNORE sub/y', 'MANIFEST sub/Manifest 0'], 'sub/Manifest': ['DATA g 1 SHA1 ' + SHA1_A, 'IGNORE y']}, ['', 'sub'])
+    yield ('shake-hash-name', {'a': b'a'}, {'Manifest': ['DATA a 1 SHAKE_128 00', 'DATA a 1 SHAKE_256 00']}, [''])
     yield ('unknown-hash', {'a': b'a'}, {'Manifest': ['DATA a 1 FOO abcd']}, [''])
     yield ('unsupported-and-known-hash', {'a': b'a'}, {'Manifest': ['DATA a 1 SHA1 %s XYZ 00' % SHA1_A]}, [''])
     yield ('size-pseudo-hash-name', {'a': b'a'}, {'Manifest': ['DATA a 1 __size__ 1']}, [''])
@@ -31,6 +36,9 @@ def cases():
            {'Manifest': ['DATA sub/x 1 SHA1 ' + SHA1_A], 'sub/Manifest': ['DATA x 1 SHA1 ' + SHA1_A]}, ['', 'sub', 'sub/deep'])
     yield ('files-is-a-regular-file', {'cat/pkg/a-1.ebuild': b'e', 'cat/pkg/files': b'f', 'cat/pkg/metadata.xml': b'<x/>'},
            {'Manifest': []}, ['', 'cat', 'cat/pkg'])
+    yield ('old-ebuild-files-without-package-manifest', {'cat/pkg/files/p.patch': b'x', 'cat/other': b'y'}, {'Manifest': []}, ['', 'cat', 'cat/pkg'])
+    yield ('old-ebuild-files-with-own-manifest', {'cat/pkg/files/p.patch': b'x', 'cat/pkg/p-1.ebuild': b'e'},
+           {'Manifest': [], 'cat/pkg/files/Manifest': []}, ['', 'cat/pkg', 'cat/pkg/files'])
     yield ('now-ignored-path-listed-in-parent', {'metadata/timestamp': b't', 'metadata/layout.conf': b'l', 'profiles/repo_name': b'r'},
            {'Manifest': ['DATA metadata/timestamp 1 SHA1 ' + SHA1_A]}, [''])
     yield ('manifest-entry-for-missing-sub-manifest', {'a': b'a'}, {'Manifest': ['MANIFEST sub/Manifest 0 SHA1 ' + SHA1_A]}, [''])
